@@ -36,6 +36,10 @@ CHECKS = {
          "States are alias groups of real slice values sharing one backing array (windows read with unsafe, canonicalised by sorted windows + rank pattern of the covered cells); transitions apply every slice-package function to every member, binary functions with every other member or a fresh literal in both positions, Take/Skip with every count; after every transition every live value and every operand must still have the contents it had when produced. Depth 4 (quick) / 6 (thorough, capped at 2e6 states; the cap and the depth completed are reported).",
          "One backing array per state (reduction argument in DESIGN.md C12); element type int; group size capped at 6/7 members (pruned transitions are counted).",
          "DESIGN.md C12"),
+ "C10": ("bounded-exhaustive enumeration of types (choice-tree explorer) x complete small value domains x all ordered pairs, executed through transpiled `=`/`<>` functions and frt.OpEqual, vs. equality of canonical value descriptions",
+         "Types to nesting depth 2 (quick) / 3 (thorough) plus a selective extra level (containers of unions holding slices) over pairs, triples, records with upper- and lower-case fields, unions, a generic union and slices; record/union types and the functions `a = b`, `a <> b` are emitted by the fc built from the working tree and compiled into the driver; every slice value is built through every producer path (literal, slice.New, nil, Take, Skip, Tail, PopLast, Filter, Map, Append, PushLast, PushHead). For all ordered pairs of values of a type: no panic, = agrees with equality of the canonical descriptions, <> is its negation; transitivity asserted directly on small domains.",
+         "Composite types take their component values from the first 2-3 values of the component domains; floats, functions, dictionaries and buffers are not first-order values of the statement.",
+         "DESIGN.md C10"),
 }
 NOT_APPLICABLE = []
 
